@@ -128,7 +128,8 @@ func (s *SourceFileSet) file(p Pos) *SourceFile {
 
 		// f.base <= int(p) by definition of searchFiles
 		if int(p) <= f.Base+f.Size {
-			s.LastFile = f // race is ok - s.last is only a cache
+			// LastFile is not updated here: a file set is shared by every VM
+			// that runs the Bytecode, lookups must not write to it.
 			return f
 		}
 	}
